@@ -24,7 +24,8 @@ def relab (inp : Input α) (orc : Oracles α) (s : St α) : St α :=
            round := s.round + 1 }
 
 theorem stats_eq (inp : Input α) (orc : Oracles α) (s : St α) :
-    (phases inp orc).stats s = .ok (fit inp s) := rfl
+    (phases inp orc).stats s =
+      if hasEmpty inp.K s.labels then .error "empty-cluster" else .ok (fit inp s) := rfl
 
 theorem opt_eq (inp : Input α) (orc : Oracles α) (s : St α) :
     (phases inp orc).opt s = .ok s := rfl
@@ -39,39 +40,70 @@ theorem repop_eq (inp : Input α) (orc : Oracles α) (s : St α) :
       | some l => .ok { s with labels := l }
       | none => .error "no-donor" := rfl
 
+/-- the three phases after the (possible) repopulation, on a state `s1`. -/
+theorem fit_relabel_cases (inp : Input α) (orc : Oracles α) (s1 : St α) :
+    ((phases inp orc).stats s1 >>= (phases inp orc).opt >>= (phases inp orc).relabel) =
+      if hasEmpty inp.K s1.labels then .error "empty-cluster"
+      else .ok (relab inp orc (fit inp s1)) := by
+  rw [stats_eq]
+  split <;> rfl
+
+/-- the state a round fits: the input itself in round 0, its repopulation afterwards. -/
+def fittedInput (inp : Input α) (orc : Oracles α) (i : Nat) (s : St α) : Except String (St α) :=
+  if 0 < i then (phases inp orc).repop s else .ok s
+
 /-- what a round of the composed model is: a successful round is `relab (fit s1)` for a state `s1`
-that has the round counter of the input state (the input itself, or its repopulation); a failed
-round failed with "no-donor". -/
+that has the round counter of the input state (the input itself, or its repopulation) and no empty
+cluster; a failed round failed with "no-donor" (repopulation) or "empty-cluster" (statistics). -/
 theorem round_cases (inp : Input α) (orc : Oracles α) (i : Nat) (s : St α) :
-    (∃ s1, s1.round = s.round ∧
+    (∃ s1, s1.round = s.round ∧ fittedInput inp orc i s = .ok s1 ∧ hasEmpty inp.K s1.labels = false ∧
         round (phases inp orc) i s = .ok (relab inp orc (fit inp s1))) ∨
-      round (phases inp orc) i s = .error "no-donor" := by
+      (0 < i ∧ (phases inp orc).repop s = .error "no-donor" ∧
+        round (phases inp orc) i s = .error "no-donor") ∨
+      (∃ s1, fittedInput inp orc i s = .ok s1 ∧ hasEmpty inp.K s1.labels = true ∧
+        round (phases inp orc) i s = .error "empty-cluster") := by
   rcases Nat.eq_zero_or_pos i with hi | hi
   · subst hi
-    left
-    exact ⟨s, rfl, by rw [round_zero]; rfl⟩
-  · rw [round_pos _ i hi, repop_eq]
+    rw [round_zero, fit_relabel_cases]
+    cases he : hasEmpty inp.K s.labels with
+    | false => left; exact ⟨s, rfl, rfl, he, by simp⟩
+    | true => right; right; exact ⟨s, rfl, he, by simp⟩
+  · rw [round_pos _ i hi]
+    have hfi : fittedInput inp orc i s = (phases inp orc).repop s := by simp [fittedInput, hi]
+    rw [hfi, repop_eq]
     cases Repop.repopulate inp.K inp.m (orc.spread s.round) (orc.pick s.round)
         (orc.order s.round) s.labels with
-    | none => right; rfl
-    | some l => left; exact ⟨{ s with labels := l }, rfl, rfl⟩
+    | none => right; left; exact ⟨hi, rfl, rfl⟩
+    | some l =>
+      have hb : ((Except.ok { s with labels := l } : Except String (St α)) >>= (phases inp orc).stats
+          >>= (phases inp orc).opt >>= (phases inp orc).relabel) =
+          ((phases inp orc).stats { s with labels := l } >>= (phases inp orc).opt
+            >>= (phases inp orc).relabel) := rfl
+      simp only [hb, fit_relabel_cases]
+      cases he : hasEmpty inp.K l with
+      | false => left; exact ⟨{ s with labels := l }, rfl, rfl, he, by simp [he]⟩
+      | true => right; right; exact ⟨{ s with labels := l }, rfl, he, by simp [he]⟩
 
 theorem round_ok_shape (inp : Input α) (orc : Oracles α) (i : Nat) (s s' : St α)
     (h : round (phases inp orc) i s = .ok s') :
     ∃ s1, s1.round = s.round ∧ s' = relab inp orc (fit inp s1) := by
-  rcases round_cases inp orc i s with ⟨s1, h1, h2⟩ | h2
+  rcases round_cases inp orc i s with ⟨s1, h1, _, _, h2⟩ | ⟨_, _, h2⟩ | ⟨_, _, _, h2⟩
   · rw [h2] at h
     exact ⟨s1, h1, (Except.ok.inj h).symm⟩
   · rw [h2] at h
     cases h
+  · rw [h2] at h
+    cases h
 
-theorem round_error_no_donor (inp : Input α) (orc : Oracles α) (i : Nat) (s : St α) (e : String)
-    (h : round (phases inp orc) i s = .error e) : e = "no-donor" := by
-  rcases round_cases inp orc i s with ⟨s1, _, h2⟩ | h2
+theorem round_error_kinds (inp : Input α) (orc : Oracles α) (i : Nat) (s : St α) (e : String)
+    (h : round (phases inp orc) i s = .error e) : e = "no-donor" ∨ e = "empty-cluster" := by
+  rcases round_cases inp orc i s with ⟨s1, _, _, _, h2⟩ | ⟨_, _, h2⟩ | ⟨_, _, _, h2⟩
   · rw [h2] at h
     cases h
   · rw [h2] at h
-    exact (Except.error.inj h).symm
+    exact Or.inl (Except.error.inj h).symm
+  · rw [h2] at h
+    exact Or.inr (Except.error.inj h).symm
 
 /-! ### the cost table -/
 
